@@ -43,7 +43,11 @@ type IonWorld struct {
 	Views  []ion.SharedSymbolTable
 	Cat    ion.Catalog
 	Slices [][]ion.SharedSymbolTable
-	model  CWorld
+	// Builder is a symbol table builder that one task keeps using after Built was taken from it with Build(); Built is
+	// handed to writers and Marshal calls of other tasks (Build promises an immutable table).
+	Builder ion.SymbolTableBuilder
+	Built   ion.SymbolTable
+	model   CWorld
 }
 
 func BuildIonWorld(w CWorld) *IonWorld {
@@ -59,6 +63,11 @@ func BuildIonWorld(w CWorld) *IonWorld {
 		}
 		iw.Slices = append(iw.Slices, sl)
 	}
+	iw.Builder = ion.NewSymbolTableBuilder(iw.SSTs[0], iw.SSTs[len(iw.SSTs)-1])
+	for _, t := range []string{"x", "y", "label", "id", "name", "tags", "pt", "hello", "zed"} {
+		iw.Builder.Add(t)
+	}
+	iw.Built = iw.Builder.Build()
 	if w.CatTables == nil {
 		iw.Cat = ion.NewCatalog(iw.SSTs...)
 	} else {
@@ -131,6 +140,12 @@ func (w *IonWorld) Digest() string {
 		digestTable(&sb, fmt.Sprintf("view[%d]", i), t)
 	}
 	digestTable(&sb, "system", ion.V1SystemSymbolTable)
+	fmt.Fprintf(&sb, "built max=%d symbols=%q", w.Built.MaxID(), w.Built.Symbols())
+	for _, p := range []string{"x", "zed", "a1", "late_1", "late_2", "late_7", "nosuch"} {
+		id, ok := w.Built.FindByName(p)
+		fmt.Fprintf(&sb, " %s=%d/%v", p, id, ok)
+	}
+	sb.WriteByte('\n')
 	for i, sl := range w.Slices {
 		fmt.Fprintf(&sb, "slice[%d] len=%d:", i, len(sl))
 		for _, t := range sl {
@@ -674,6 +689,8 @@ func (w *IonWorld) writer(t CTask, sink *sim.Sink) ion.Writer {
 		return ion.NewTextWriterOpts(sink, ion.TextWriterPretty, w.tables(t.Imports)...)
 	case "binary-lst":
 		return ion.NewBinaryWriterLST(sink, ion.NewLocalSymbolTable(w.tables(t.Imports), append([]string(nil), t.LSTSymbols...)))
+	case "binary-built":
+		return ion.NewBinaryWriterLST(sink, w.Built)
 	default:
 		return ion.NewBinaryWriter(sink, w.tables(t.Imports)...)
 	}
@@ -787,6 +804,8 @@ func RunCTask(w *IonWorld, t CTask, yield func(string)) (out string) {
 			switch t.Writer {
 			case "text", "pretty":
 				b, err = ion.MarshalText(v)
+			case "binary-built":
+				b, err = ion.MarshalBinaryLST(v, w.Built)
 			case "binary-lst":
 				b, err = ion.MarshalBinaryLST(v, ion.NewLocalSymbolTable(w.tables(t.Imports), append([]string(nil), t.LSTSymbols...)))
 			default:
@@ -797,6 +816,17 @@ func RunCTask(w *IonWorld, t CTask, yield func(string)) (out string) {
 				yield("marshal.done")
 			}
 		}
+	case "builder":
+		// the owner of the world's builder goes on adding symbols after Build() was taken (at most one such task per set)
+		for i := 0; i < t.Count; i++ {
+			id, fresh := w.Builder.Add(fmt.Sprintf("late_%d", i))
+			id2, ok := w.Builder.FindByName("x")
+			fmt.Fprintf(&sb, "%d %v %d %v max=%d\n", id, fresh, id2, ok, w.Builder.MaxID())
+			if yield != nil {
+				yield("builder.Add")
+			}
+		}
+		sb.WriteString(w.Builder.Build().String())
 	case "tables":
 		for i, op := range t.TOps {
 			tb := w.table(op.Table)
